@@ -16,12 +16,17 @@ def handleC12 (j : J) : J :=
   match j.strD "op" with
   | "history" =>
     let st := if j.strD "state" == "generator" then initialGenerator else initialCollection
-    let schemas := (j.arrD "schemas").map fun s => (Driver.schemaOfJson (s.getD "schema"), appsOfJson s)
+    let schemas := (j.arrD "schemas").map fun s =>
+      let bj := s.getD "builtins"
+      let b : Builtins := { specified := (Driver.schemaOfJson (.obj [("types", .arr []), ("directives", .arr (bj.arrD "specified"))])).directives,
+                            introspection := (Driver.schemaOfJson (.obj [("types", .arr (bj.arrD "introspection")), ("directives", .arr [])])).types }
+      (Driver.schemaOfJson (s.getD "schema"), appsOfJson s, b)
     let calls := (j.arrD "calls").map fun c =>
-      let (s, a) := schemas.getD (c.natD "schema") (default, [])
+      let (s, a, b) := schemas.getD (c.natD "schema") (default, [], default)
       let wl : Option (List String) := match c.get? "whitelist" with | some (.arr a) => some (a.filterMap J.asStr?) | _ => none
-      (({ indent := c.strD "indent", descriptions := c.boolD "descriptions", custom := c.boolD "custom", whitelist := wl } : Opts), s, a)
-    .obj [("texts", .arr ((runHistory st calls).map .str))]
+      (({ indent := c.strD "indent", descriptions := c.boolD "descriptions", custom := c.boolD "custom", whitelist := wl } : Opts),
+        c.boolD "introspection", b, s, a)
+    .obj [("texts", .arr ((runHistoryX st calls).map .str))]
   | "printT" =>
     -- the second (total, Text-based) model of the printer, the first model on the same input, the lexical
     -- well-formedness predicate and the text-level statement `parse(printSchemaT s) = tree of the denoted document`
